@@ -47,7 +47,9 @@ META = {
                 'doit/doit_cmd.py::DoitMain.run'],
     'technique': ('Lean 4 invariant proofs over the small-step transition system of TaskDispatcher + Runner / MRunner / '
                   'MThreadRunner (M1): dependency-path invariant of ExecNode.ancestors and of the wait sets, rank '
-                  'descent over the waiting queue for _check_deadlock, dispatched-set accounting for "hold on"; '
+                  'descent over the waiting queue for _check_deadlock, dispatched-set accounting for "hold on"; order '
+                  'invariant on terminal reports (age of the first report as a rank along the closure graph) for the cycle '
+                  'diagnosis; a lexicographic termination measure decreasing on every transition of both systems; '
                   'counterexample theorems for the dispatcher before the repairs; trace-acceptance correspondence of the '
                   'real doit (three runners, every run under a watchdog) on all small digraphs and sampled larger ones; '
                   'Lean monitor of the full property statement on every implementation run, Python cross-check'),
@@ -69,23 +71,26 @@ META = {
                    'and exit code 3); C09_report_after_dependencies (the order invariant behind it: the terminal report of a '
                    'task is younger than the terminal report of every closure-graph successor).  Hypothesis BoundedCalc: every '
                    'calc_dep name is a task index < nTasks, i.e. the monitor has enough fixed-point fuel -- needed: '
-                   'C09_cycle_diagnosed_fuel_counterexample.  C09_terminates_serial (FULL, dispatcher + serial runner): on a '
-                   'finite task table (FiniteTable: every name mentioned is an index < N) there is no infinite run, for every '
-                   'graph, oracle and set-iteration order -- every transition decreases a lexicographic measure '
-                   '(C09_serial_step_decreases).  NOT proved, monitored on every implementation run instead: termination of '
-                   'the parallel runners (C09_terminates_full).  The model is tied to doit on '
+                   'C09_cycle_diagnosed_fuel_counterexample.  C09_terminates_serial / _parallel / C09_terminates (FULL, all '
+                   'three runners): on a finite task table (FiniteTable: every name mentioned is an index < N; needed, the '
+                   'model allows infinite tables) there is no infinite run -- for every graph, oracle, set-iteration order, '
+                   'worker interleaving and numProcess every transition decreases a lexicographic measure '
+                   '(C09_serial_step_decreases / C09_parallel_step_decreases: tasks without final status, names without a '
+                   'node, calc_deps still to be delivered, weighted list lengths + generator position + queues + runner pc '
+                   'with the start/feed loop counters).  Every clause of the property is now a theorem; the monitor still '
+                   'evaluates the full statement on every implementation run.  The model is tied to doit on '
                    'every run by trace acceptance of the real doit under a watchdog on all digraphs of the small scope x '
                    'selections x runners and on sampled graphs with cycles through every edge kind.'),
-    'level_note': ('partial: C09_terminates_full (all runners) is stated (def ... : Prop) and proved for the serial runner only '
-                   '(C09_terminates_serial); C09_cycle_diagnosed is a theorem since wave 3 (exit code 3 is concluded under '
-                   '"no internal error", halt != crash, which is proved unreachable only for the "hold on" paths); the '
+    'level_note': ('full since wave 3: C09_terminates and C09_cycle_diagnosed are theorems (hypotheses: FiniteTable / '
+                   'BoundedCalc, i.e. task names are indices below the number of tasks; exit code 3 is concluded under "no '
+                   'internal error", halt != crash, which is proved unreachable only for the "hold on" paths).  The '
                    'monitor evaluates the full property statement (terminates / exit 3 + Cyclic diagnostic iff the closure '
                    'graph of the run has a cycle / no task on a cycle executed / acyclic => no cycle error, no hang, no '
                    'internal hold-on crash) on every run.  Acyclic is a Prop (existence of a rank function), decided per '
                    'case by a graph search in the harness / driver.  Thread mode: the Cyclic diagnostic is also looked for in '
                    'the stream of an overlapping python-action, where the process-wide sys.stderr swap of doit (open finding '
                    'F-C17a of C17) routes it.  A worker process alive 1.5 s after DoitMain.run returned counts as a hang.'),
-    'partial_theorems': ['C09_terminates_full (def; proved for the serial runner: C09_terminates_serial)'],
+    'partial_theorems': [],
     'rule': ('(1) exhaustive: every digraph (self-loops included) on <=3 tasks (quick) / <=4 tasks (thorough) over task_dep '
              'x every selection (none, and every ordered non-empty list of distinct task names; 4 tasks: none + sampled) x '
              'serial / thread k=2 (k=3 for the whole-graph selection) / process (sampled); (2) structured families: '
